@@ -50,6 +50,7 @@ func runC18(c *Ctx) {
 		c.expect("C18.e", 120)
 	}
 
+	c18Normalise(c)
 	w := &c18World{c: c, p: c.P, pk: c.P.Pkg("vaxis")}
 	if w.pk == nil {
 		c.undecided("C18.a", "setup", 0, "package vaxis not loaded")
@@ -881,6 +882,7 @@ func c18Facts(g *FG, l Loc, guards []Guard) []Atom {
 	var out []Atom
 	for _, gd := range guards {
 		atoms := condAtoms(g.Info, gd.Cond, gd.Pol)
+		atoms = append(atoms, c18LinAtoms(g.Info, gd.Cond, gd.Pol)...)
 		if len(atoms) == 0 {
 			continue
 		}
@@ -1021,11 +1023,63 @@ func (w *c18World) lengthGuards(fi *FuncInfo) {
 			return true
 		})
 	}
-	// non-negative variables: every assignment is `= c`/`:= c` with c >= 0, `+= c` with c >= 0, `++`, or a range key
-	nonNeg := func(o types.Object) bool {
+	// non-negative variables: every assignment is `= e`/`:= e`/`+= e` with e >= 0, `++`, or a range key, where e >= 0 is
+	// shown by: e is a constant >= 0; e is v + c with c >= 0 and v itself such a variable; or the guards in force at
+	// the assignment imply v + c >= 0 (`if n > 0 { i += n - 1 }`).
+	nonNegMemo := map[types.Object]int{} // 1 = being decided, 2 = yes, 3 = no
+	var nonNeg func(o types.Object) bool
+	nonNegExpr := func(o types.Object, at ast.Node, e ast.Expr) bool {
+		if v, isConst := constInt(info, e); isConst {
+			return v >= 0
+		}
+		if !isIntegerExpr(info, e) {
+			return false
+		}
+		lf := c18Lin(info, e)
+		if !lf.ok {
+			return false
+		}
+		if len(lf.terms) == 0 {
+			return lf.k >= 0
+		}
+		if len(lf.terms) != 1 {
+			return false
+		}
+		for _, tm := range lf.terms {
+			if tm.coef != 1 {
+				return false
+			}
+			id, isId := unparen(tm.e).(*ast.Ident)
+			if !isId {
+				return false
+			}
+			vo, isVar := info.ObjectOf(id).(*types.Var)
+			if !isVar || vo.IsField() || vo.Pkg() == nil || vo.Parent() == vo.Pkg().Scope() {
+				return false
+			}
+			if lf.k >= 0 && (vo == o || nonNeg(vo)) {
+				return true
+			}
+			if l, found := g.Locate(at); found {
+				facts := c18Facts(g, l, g.Guards(l))
+				if impliesLin(facts, Term{}, tm.t, lf.k) { // 0 - v <= k  <=>  v + k >= 0
+					return true
+				}
+			}
+		}
+		return false
+	}
+	nonNeg = func(o types.Object) bool {
 		if o == nil {
 			return false
 		}
+		switch nonNegMemo[o] {
+		case 1, 3:
+			return false
+		case 2:
+			return true
+		}
+		nonNegMemo[o] = 1
 		ok := true
 		found := false
 		ast.Inspect(fi.Decl.Body, func(n ast.Node) bool {
@@ -1044,13 +1098,25 @@ func (w *c18World) lengthGuards(fi *FuncInfo) {
 						ok = false
 						continue
 					}
-					v, isConst := constInt(info, t.Rhs[i])
 					switch t.Tok {
 					case token.ASSIGN, token.DEFINE, token.ADD_ASSIGN:
-						if !isConst || v < 0 {
+						if !nonNegExpr(o, t, t.Rhs[i]) {
 							ok = false
 						}
 					default:
+						ok = false
+					}
+				}
+			case *ast.ValueSpec:
+				for i, nm := range t.Names {
+					if info.Defs[nm] != o {
+						continue
+					}
+					found = true
+					if len(t.Values) == 0 {
+						continue // zero value
+					}
+					if len(t.Values) != len(t.Names) || !nonNegExpr(o, t, t.Values[i]) {
 						ok = false
 					}
 				}
@@ -1075,7 +1141,12 @@ func (w *c18World) lengthGuards(fi *FuncInfo) {
 			}
 			return true
 		})
-		return ok && found
+		if ok && found {
+			nonNegMemo[o] = 2
+			return true
+		}
+		nonNegMemo[o] = 3
+		return false
 	}
 	// slices of the form X[t+k0:] anywhere in the function (their length facts bound X)
 	var tails []*ast.SliceExpr
@@ -1285,12 +1356,30 @@ func (w *c18World) lengthGuards(fi *FuncInfo) {
 		if len(ctx) > 0 {
 			key += " when " + strings.Join(ctx, " ")
 		}
-		t, k := linForm(info, idx)
+		// X[a:][b] is X[a+b] (the slice expression X[a:] is an obligation of its own)
+		origX := X
+		lf := c18Lin(info, idx)
+		for {
+			se, isTail := unparen(X).(*ast.SliceExpr)
+			if !isTail || se.High != nil || se.Max != nil {
+				break
+			}
+			if _, isSl := info.TypeOf(se.X).Underlying().(*types.Slice); !isSl {
+				break
+			}
+			if se.Low != nil {
+				lf = c18LinAdd(lf, c18Lin(info, se.Low), 1)
+			}
+			X = se.X
+		}
 		// lower bound
-		lowOK := k >= 0
-		if t.ID != "" {
-			id, isId := unparen(c18StripAdd(idx)).(*ast.Ident)
-			lowOK = lowOK && isId && nonNeg(info.ObjectOf(id))
+		var t Term
+		k := lf.k
+		lowOK := lf.ok && k >= 0 && len(lf.terms) <= 1
+		for _, tm := range lf.terms {
+			t = tm.t
+			id, isId := unparen(tm.e).(*ast.Ident)
+			lowOK = lowOK && tm.coef == 1 && isId && nonNeg(info.ObjectOf(id))
 		}
 		if !lowOK {
 			c.undecided("C18.e", key, h.Node.Pos(), "cannot show the index %s is non-negative", types.ExprString(idx))
@@ -1337,9 +1426,159 @@ func (w *c18World) lengthGuards(fi *FuncInfo) {
 		if why != "" {
 			c.ok("C18.e", key, h.Node.Pos(), "in bounds: %s", why)
 		} else {
-			c.bad("C18.e", key, h.Node.Pos(), "no dominating guard establishes len(%s) > %s; facts in force: %s", xt.Disp, types.ExprString(idx), atomsString(facts))
+			c.bad("C18.e", key, h.Node.Pos(), "no dominating guard establishes len(%s) > %s; facts in force: %s", types.ExprString(origX), types.ExprString(idx), atomsString(facts))
 		}
 	}
+}
+
+// c18LinForm: a linear form  sum coef*term + k  over access-path terms (facts.go), with
+// len(X[a:]) = len(X) - a  (valid wherever X[a:] itself does not panic, which is an obligation of its own).
+type c18LinTerm struct {
+	t    Term
+	coef int64
+	e    ast.Expr
+}
+
+type c18LinForm struct {
+	terms map[string]*c18LinTerm
+	k     int64
+	ok    bool
+}
+
+func c18LinAdd(a, b c18LinForm, sign int64) c18LinForm {
+	out := c18LinForm{terms: map[string]*c18LinTerm{}, k: a.k + sign*b.k, ok: a.ok && b.ok}
+	for id, tm := range a.terms {
+		cp := *tm
+		out.terms[id] = &cp
+	}
+	for id, tm := range b.terms {
+		if have := out.terms[id]; have != nil {
+			have.coef += sign * tm.coef
+			if have.coef == 0 {
+				delete(out.terms, id)
+			}
+		} else {
+			cp := *tm
+			cp.coef *= sign
+			out.terms[id] = &cp
+		}
+	}
+	return out
+}
+
+func c18Lin(info *types.Info, e ast.Expr) c18LinForm {
+	e = unparen(e)
+	if v, ok := constInt(info, e); ok {
+		return c18LinForm{terms: map[string]*c18LinTerm{}, k: v, ok: true}
+	}
+	switch t := e.(type) {
+	case *ast.BinaryExpr:
+		if (t.Op == token.ADD || t.Op == token.SUB) && isIntegerExpr(info, t.X) && isIntegerExpr(info, t.Y) {
+			sign := int64(1)
+			if t.Op == token.SUB {
+				sign = -1
+			}
+			return c18LinAdd(c18Lin(info, t.X), c18Lin(info, t.Y), sign)
+		}
+	case *ast.CallExpr:
+		if id, ok := t.Fun.(*ast.Ident); ok && len(t.Args) == 1 {
+			if b, isB := info.Uses[id].(*types.Builtin); isB && b.Name() == "len" {
+				if se, ok := unparen(t.Args[0]).(*ast.SliceExpr); ok && se.High == nil && se.Max == nil {
+					if _, isSl := info.TypeOf(se.X).Underlying().(*types.Slice); isSl {
+						inner := c18Lin(info, &ast.CallExpr{Fun: t.Fun, Args: []ast.Expr{se.X}})
+						if se.Low == nil {
+							return inner
+						}
+						return c18LinAdd(inner, c18Lin(info, se.Low), -1)
+					}
+				}
+			}
+		}
+	}
+	tm := termOf(info, e)
+	return c18LinForm{terms: map[string]*c18LinTerm{tm.ID: {t: tm, coef: 1, e: e}}, ok: tm.ID != ""}
+}
+
+// c18LinAtoms: the difference atoms (A - B <= K) of a guard whose sides are general linear forms
+// (`len(params)-i < 3`, `len(params[i:]) < 3`, `i+3 > len(params)`), which condAtoms (one term per side) does not see.
+func c18LinAtoms(info *types.Info, c *Cond, pol bool) []Atom {
+	if c.Alts != nil {
+		return nil
+	}
+	if c.Tag != nil {
+		return c18CmpLin(info, c.Tag, token.EQL, c.Expr, pol)
+	}
+	return c18ExprLin(info, c.Expr, pol)
+}
+
+func c18ExprLin(info *types.Info, e ast.Expr, pol bool) []Atom {
+	e = unparen(e)
+	switch t := e.(type) {
+	case *ast.UnaryExpr:
+		if t.Op == token.NOT {
+			return c18ExprLin(info, t.X, !pol)
+		}
+	case *ast.BinaryExpr:
+		switch t.Op {
+		case token.LAND:
+			if pol {
+				return append(c18ExprLin(info, t.X, true), c18ExprLin(info, t.Y, true)...)
+			}
+		case token.LOR:
+			if !pol {
+				return append(c18ExprLin(info, t.X, false), c18ExprLin(info, t.Y, false)...)
+			}
+		case token.EQL, token.NEQ, token.LSS, token.LEQ, token.GTR, token.GEQ:
+			return c18CmpLin(info, t.X, t.Op, t.Y, pol)
+		}
+	}
+	return nil
+}
+
+func c18CmpLin(info *types.Info, x ast.Expr, op token.Token, y ast.Expr, pol bool) []Atom {
+	if !isIntegerExpr(info, x) || !isIntegerExpr(info, y) {
+		return nil
+	}
+	if !pol {
+		op = negOp(op)
+	}
+	// only forms condAtoms does not already decompose: a side with two terms or a len of a tail slice
+	d := c18LinAdd(c18Lin(info, x), c18Lin(info, y), -1) // x - y = d.terms + d.k
+	if !d.ok || len(d.terms) > 2 {
+		return nil
+	}
+	var pos, neg Term
+	np, nn := 0, 0
+	for _, tm := range d.terms {
+		switch tm.coef {
+		case 1:
+			pos = tm.t
+			np++
+		case -1:
+			neg = tm.t
+			nn++
+		default:
+			return nil
+		}
+	}
+	if np > 1 || nn > 1 {
+		return nil
+	}
+	// pos - neg + k OP 0
+	k := d.k
+	switch op {
+	case token.LSS: // pos - neg <= -k-1
+		return []Atom{{Kind: "lin", A: pos, B: neg, K: -k - 1}}
+	case token.LEQ:
+		return []Atom{{Kind: "lin", A: pos, B: neg, K: -k}}
+	case token.GTR: // neg - pos <= k-1
+		return []Atom{{Kind: "lin", A: neg, B: pos, K: k - 1}}
+	case token.GEQ:
+		return []Atom{{Kind: "lin", A: neg, B: pos, K: k}}
+	case token.EQL:
+		return []Atom{{Kind: "lin", A: pos, B: neg, K: -k}, {Kind: "lin", A: neg, B: pos, K: k}}
+	}
+	return nil
 }
 
 // c18StripAdd removes `+ const` / `- const` wrappers: i+2 -> i.
